@@ -16,7 +16,10 @@ EXPLANATION = (
     "family, binders and shadowing, Boolean terms inside theory terms, shared sub-terms, sorts that occur only in "
     "a payload (bound-variable lists, constant-array index sorts, inner function signatures) - and the answers "
     "equal independent structural reference definitions computed on the skeleton (R2).  Exhaustive dispatch of "
-    "the four table-driven oracles over the operator universe, by resolution of their handler tables (R1).")
+    "the four table-driven oracles over the operator universe, by resolution of their handler tables (R1).  Answers "
+    "are cached per formula, not per node id: each oracle (and the type checker) is asked about a formula of one real, "
+    "interpreted environment and then about a structurally different formula of another environment whose nodes "
+    "carry the same ids; the second answer is the one a fresh oracle gives (R4).")
 NOT_DECIDED = ["skeletons outside the menu (the thorough tier places every skeleton in further contexts)"]
 
 
@@ -33,6 +36,11 @@ def run(ctx):
                 continue
             dispatch_rule(ctx, rs, q)
         ctx.floor(rs, 260)
+
+    if ctx.want("R4"):
+        rs = ctx.rule("R4", "real managers: an analysis asked about formulas of two environments whose node ids coincide answers each as a fresh analysis does")
+        from . import mgr_deep
+        mgr_deep.report(ctx, rs, mgr_deep.alias_results(), "pysmt/oracles.py", 30)
 
     from . import c12_deep
     c12_deep.run(ctx)
